@@ -166,8 +166,8 @@ def check_order(ctx, rule, fi, preds, before=(), after_loop=(), forbid_ctx=(), r
             for i, e in enumerate(evs):
                 if e.name != x:
                     continue
-                inside = any(loop_pred(l) for l in e.loops)
-                exits = [k for k, y in enumerate(evs[:i]) if y.name == 'LOOP-EXIT' and loop_pred(y.node)]
+                inside = any(loop_pred(l) for l in e.loops) or e.partial
+                exits = [k for k, y in enumerate(evs[:i]) if y.name == 'LOOP-EXIT' and loop_pred(y.node) and not y.partial]
                 if inside or not exits:
                     problems.setdefault((x + ' only after the loop has completed', e.node), p)
         for x in forbid_ctx:
